@@ -409,7 +409,39 @@ def cmd_inram_update_metadata(p):
     except BaseException as e:  # noqa
         exc2 = e
     after2 = snap()
+    # a delta whose Metadata objects are VIEWS positioned at a non-root namespace of a larger tree: _UpdateMetadata must apply every
+    # entry of the tree at its ABSOLUTE namespace (read-back of every namespace)
+    view_bad = []
+    for cur in (('algo',), ('algo', 'sub'), ('other',)):
+        pr2 = vz.ProblemStatement()
+        pr2.search_space.root.add_float_param('x', 0.0, 1.0)
+        pr2.metric_information.append(vz.MetricInformation(name='m', goal=vz.ObjectiveMetricGoal.MAXIMIZE))
+        pr2.metadata['k'] = 'user'
+        pr2.metadata.abs_ns(('algo',))['k'] = 'stale'
+        sup2 = lps.InRamPolicySupporter(pr2)
+        sup2.AddTrials([vz.Trial(parameters={'x': 0.1})])
+        sup2._trials[1].metadata['k'] = 'user_t'
+        tree, ttree = vz.Metadata(), vz.Metadata()
+        for t_, tag in ((tree, 's'), (ttree, 't')):
+            t_['rootkey'] = 'r' + tag
+            t_.abs_ns(('algo',))['k'] = 'new' + tag
+            t_.abs_ns(('algo', 'sub'))['deep'] = 'd' + tag
+        flat = lambda md: {(tuple(ns), k): v for ns, k, v in md.all_items()}
+        want_s = dict(flat(sup2.study_config.metadata))
+        want_s.update(flat(tree))
+        want_t = dict(flat(sup2._trials[1].metadata))
+        want_t.update(flat(ttree))
+        d3 = vz.MetadataDelta(on_study=tree.abs_ns(cur), on_trials={1: ttree.abs_ns(cur)})
+        try:
+            sup2._UpdateMetadata(d3)
+            got_s, got_t = flat(sup2.study_config.metadata), flat(sup2._trials[1].metadata)
+            if got_s != want_s or got_t != want_t:
+                view_bad.append({'delta_view_positioned_at': list(cur), 'study_after': sorted(map(list, [(list(a), b, c) for (a, b), c in got_s.items()])),
+                                 'study_expected': sorted(map(list, [(list(a), b, c) for (a, b), c in want_s.items()]))})
+        except BaseException as e:  # noqa
+            view_bad.append({'delta_view_positioned_at': list(cur), 'exception': type(e).__name__})
     out({'exception': type(exc).__name__ if exc is not None else None, 'args': [repr(a) for a in getattr(exc, 'args', ())],
+         'view_failures': view_bad[:2], 'view_reproduced': bool(view_bad),
          'before': before, 'after': after, 'reproduced': exc is not None and before != after,
          'bad_id_exception': type(exc2).__name__ if exc2 is not None else None, 'bad_id_reproduced': exc2 is not None and after2 != after})
 
